@@ -251,14 +251,19 @@ func (fi *fileInstr) walk(f *ast.File) {
 			if fl, ok := x.Call.Fun.(*ast.FuncLit); ok {
 				pos := fi.off(fl.Body.Lbrace) + 1
 				lbl := fi.label(x.Pos(), "spawned")
-				fi.edits = append(fi.edits, edit{start: pos, end: pos, prio: 0, gen: func() string { return " vsched.Point(" + lbl + "); " }})
+				// a panic in a goroutine of the library must become an observation
+				// (the property checks say "never a panic"), not the death of the
+				// test process
+				fi.edits = append(fi.edits, edit{start: pos, end: pos, prio: 0, gen: func() string {
+					return " defer func() { if _vsR := recover(); _vsR != nil { vsched.ReportPanic(_vsR) } }(); vsched.Point(" + lbl + "); "
+				}})
 				fi.n.spawns++
 			} else if simpleArgs(x.Call.Args) {
 				cs, ce := fi.off(x.Call.Pos()), fi.off(x.Call.End())
 				gs := fi.off(x.Pos())
 				lbl := fi.label(x.Pos(), "spawned")
 				fi.edits = append(fi.edits, edit{start: gs, end: ce, prio: 1, gen: func() string {
-					return "go func() { vsched.Point(" + lbl + "); " + fi.transform(cs, ce) + " }()"
+					return "go func() { defer func() { if _vsR := recover(); _vsR != nil { vsched.ReportPanic(_vsR) } }(); vsched.Point(" + lbl + "); " + fi.transform(cs, ce) + " }()"
 				}})
 				fi.n.spawns++
 			}
